@@ -37,7 +37,12 @@ type genCfg struct {
 	Markup     float64 // probability that a line carries a literal inside a markup wrapper (text must not change)
 	JumpFaults float64 // probability that a jump fails (unknown node, non-string destination, failing expression)
 	CountJumps bool    // node titles N0..N2 and jumps whose destination is computed from a visit count
-	Storer     string
+	// command dispatch (C17): option bodies begin with a command, the same command statements are
+	// dispatched again and again while visit counts and host state change (elements that read no
+	// variable: visit functions, a host function with a side effect), the host registers its own
+	// handler under the name of the built-in `wait`
+	Dispatch bool
+	Storer   string
 }
 
 var families = map[string]genCfg{
@@ -64,6 +69,8 @@ var families = map[string]genCfg{
 	// every line computes with floor / ceil / round / inc / dec / integer / decimal (shared-state bugs in the built-ins)
 	"mathy": {Family: "mathy", MaxNodes: 2, MaxDepth: 1, MaxStmts: 6, Sets: 2, Lines: 6, Ifs: 1, Jumps: 0.5, RichExpr: true, MathHeavy: true,
 		Reloop: true, Storer: "recording"},
+	"dispatch": {Family: "dispatch", MaxNodes: 2, MaxDepth: 2, MaxStmts: 3, Opts: 2.5, Ifs: 0.5, Sets: 0.5, Jumps: 1, Stops: 0.2, Lines: 1.5,
+		Cmds: 5, PendCmds: true, FailCmds: true, Reloop: true, Dispatch: true, Storer: "recording"},
 	"snap": {Family: "snap", MaxNodes: 3, MaxDepth: 2, MaxStmts: 4, Opts: 2, Ifs: 1, Sets: 3, Jumps: 2.5, Stops: 0.3, Lines: 2,
 		Cmds: 1.5, PendCmds: true, VisitLine: true, IntroNode: true, Storer: "recording"},
 }
@@ -162,13 +169,14 @@ func genDomainCase(id int) *Case {
 func domainCaseCount() int { return len(domainCalls()) * domainKinds * 3 }
 
 type gen struct {
-	rnd    *rand.Rand
-	cfg    genCfg
-	c      *Case
-	lineNo int
-	titles []string
-	vtypes map[string]string // variable -> "n" | "b" | "s"
-	vnames []string
+	rnd      *rand.Rand
+	cfg      genCfg
+	c        *Case
+	lineNo   int
+	titles   []string
+	vtypes   map[string]string // variable -> "n" | "b" | "s"
+	vnames   []string
+	hostWait bool
 }
 
 var nodeTitles = []string{"Start", "Beta", "Gamma", "Delta", "Eps", "Zeta"}
@@ -177,6 +185,12 @@ func genCase(rnd *rand.Rand, cfg genCfg, id int) *Case {
 	g := &gen{rnd: rnd, cfg: cfg, vtypes: map[string]string{}}
 	c := &Case{ID: id, Family: cfg.Family, Funcs: defaultFuncs(), Cmds: defaultCmds(), Storer: cfg.Storer}
 	g.c = c
+	if cfg.Dispatch && rnd.Intn(2) == 0 {
+		// a handler registered under the name of the built-in replaces it
+		c.Cmds = defaultCmds()
+		c.Cmds["wait"] = []string{"done", "done", "pend", "fail"}[rnd.Intn(4)]
+		g.hostWait = true
+	}
 	nn := 1 + rnd.Intn(cfg.MaxNodes)
 	g.titles = nodeTitles[:nn]
 	if cfg.CountJumps {
@@ -589,8 +603,18 @@ func (g *gen) cmdStmt() Stmt {
 	if g.cfg.Faults > 0 && r.Float64() < g.cfg.Faults {
 		names = []string{"nosuchcmd"}
 	}
+	if g.hostWait {
+		names = append(names, "wait", "wait")
+	}
 	elems := []*Expr{eStr(names[r.Intn(len(names))])}
 	for i := r.Intn(3); i > 0; i-- {
+		if g.cfg.Dispatch && r.Intn(2) == 0 {
+			// no variable is read: the value still changes from one dispatch to the next
+			t := g.titles[r.Intn(len(g.titles))]
+			elems = append(elems, []*Expr{eCall("visited_count", eStr(t)), eCall("visited", eStr(t)), eCall("bump"),
+				eBin("add", eCall("visited_count", eStr(t)), eNum(1, 1)), eCall("p1", eCall("visited_count", eStr(g.titles[0])))}[r.Intn(5)])
+			continue
+		}
 		switch r.Intn(5) {
 		case 0:
 			elems = append(elems, eNum(r.Intn(9)-3, 1))
@@ -681,7 +705,11 @@ func (g *gen) stmts(depth int, node int) []Stmt {
 					o.Tags = []string{fmt.Sprintf("o%d", r.Intn(4))}
 				}
 				if r.Intn(4) > 0 {
-					o.Body = g.c.addBody(g.stmts(depth+1, node))
+					body := g.stmts(depth+1, node)
+					if g.cfg.Dispatch && r.Intn(2) == 0 {
+						body = append([]Stmt{g.cmdStmt()}, body...) // a command before any line of the body
+					}
+					o.Body = g.c.addBody(body)
 				}
 				st.Opts = append(st.Opts, o)
 			}
